@@ -299,8 +299,8 @@ def main(prop_id, tier, seed, only_sub=None):
                     continue
                 with open(os.path.join(rdir, fn)) as f:
                     w = json.load(f)
-                if w.get("role") == "witness":
-                    continue  # handled above
+                if w.get("role") == "witness" or "case" not in w:
+                    continue  # witnesses are handled above; other data files
                 if only_sub and w["sub"] != only_sub:
                     continue
                 rjobs.append((fn, w))
